@@ -215,6 +215,39 @@ fn backend<B: Backend>(opts: &Opts, rep: &mut Report) {
             }
         }
         rep.count_n(&format!("{}.{}.positive-controls", B::NAME, kind.name()), positives);
+        // 4b. long passwords that differ from the right one in a single byte at every interesting position
+        //     (an implementation that looks at a prefix, a block, or length + prefix is satisfied by these),
+        //     each tried immediately after the right password has opened the blob in this process
+        if kind.is_pw() {
+            for plen in [65usize, 129, 300] {
+                idx += 1;
+                if !opts.mine(idx) {
+                    continue;
+                }
+                let long: Vec<u8> = (0..plen).map(|i| b'a' + (i % 26) as u8).collect();
+                let mut ws = s.clone();
+                ws.pass = long.clone();
+                let key_raw = gen_wrapped_key::<B>(kind, &mut rng);
+                let Ok(blob) = wrap::<B>(kind, &key_raw, &ws) else { continue };
+                for pos in [0usize, 31, 32, 47, 48, 63, 64, 65, 95, 96, 127, 128, 129, 200, 255, 256, 299].into_iter().filter(|p| *p < plen) {
+                    if !matches!(guard(|| unwrap::<B>(kind, &blob, &ws)), Ok(Ok(k)) if k == key_raw) {
+                        rep.violation(&format!("C06|{}|{}|own-blob-rejected-in-sequence", B::NAME, kind.name()), json!({"blob": blob}));
+                    }
+                    let mut us = s.clone();
+                    us.pass = long.clone();
+                    us.pass[pos] ^= 0x01;
+                    expect_err::<B>(rep, kind, "long-password-one-byte-off", &blob, &us, &key_raw);
+                }
+                // same prefix, different length
+                for l2 in [plen - 1, plen + 1, 64, 128] {
+                    let mut us = s.clone();
+                    us.pass = (0..l2).map(|i| b'a' + (i % 26) as u8).collect();
+                    if us.pass != long {
+                        expect_err::<B>(rep, kind, "long-password-other-length", &blob, &us, &key_raw);
+                    }
+                }
+            }
+        }
         // 5. passwords that a lenient comparison would treat as "the same": every pair of distinct
         //    members of a family of look-alikes, wrapped with one and unwrapped with the other
         if kind.is_pw() {
@@ -312,7 +345,7 @@ pub fn run(opts: &Opts) {
     pairs!(V1 => V3Lc, V3Lc => V1, V2 => V4Na, V4Na => V2, V3Lc => V4Na, V4Na => V3Lc, V3 => V4Na, V4 => V3Lc, V3Lc => V4, V4Na => V3, V3Lc => V2, V4Na => V1);
     rep.set(
         "rule",
-        json!("fault enumeration per wrapped/sealed blob (plus secrets one byte away from the right one tried right after the right one opened the blob; plus, for password wraps, a family of ~30 look-alike passwords - trailing/leading whitespace of every kind, case, doubled spaces, NFC/NFD, truncation, repetition - wrapped with one member and unwrapped with every other): every single-bit flip of every byte (tag, nonce, salt, parameters, ephemeral key / RSA ciphertext, encrypted key), truncation to every length, extensions, further dot-separated segments and trailing characters after the data, every other kind's header over the same body (same backend and every other version with the same wrapping key / password / where formats coincide the same recipient key), wrong wrapping key (random, one bit), wrong password (prefix, one char, empty, NUL suffix, case), other recipient; non-trivial = differs from the produced blob/secret; KDF costs beyond 64 MiB / 3 passes / 200k iterations are skipped and counted"),
+        json!("fault enumeration per wrapped/sealed blob (plus 65/129/300-byte passwords one byte off at positions 0..299 tried right after the right password; plus secrets one byte away from the right one tried right after the right one opened the blob; plus, for password wraps, a family of ~30 look-alike passwords - trailing/leading whitespace of every kind, case, doubled spaces, NFC/NFD, truncation, repetition - wrapped with one member and unwrapped with every other): every single-bit flip of every byte (tag, nonce, salt, parameters, ephemeral key / RSA ciphertext, encrypted key), truncation to every length, extensions, further dot-separated segments and trailing characters after the data, every other kind's header over the same body (same backend and every other version with the same wrapping key / password / where formats coincide the same recipient key), wrong wrapping key (random, one bit), wrong password (prefix, one char, empty, NUL suffix, case), other recipient; non-trivial = differs from the produced blob/secret; KDF costs beyond 64 MiB / 3 passes / 200k iterations are skipped and counted"),
     );
     rep.finish(opts);
 }
